@@ -590,6 +590,12 @@ class Fn:
                 # CPython: min(a, b) = b if b < a else a ; max(a, b) = b if b > a else a
                 rel = "<" if fname == "min" else ">"
                 return f"(if {b} {rel} {a} then {b} else {a})", ta
+            if fname == "len":
+                if len(args) != 1: fail(n, "len() with other than one argument")
+                l, tl = self.expr(args[0], env, ind)
+                if not (isinstance(tl, tuple) and tl[0] in ("list", "dict")):
+                    fail(n, f"len() of a {tl}")
+                return f"(({l}.length : Nat) : Int)", "int"
             if fname == "sorted":
                 if len(args) != 1: fail(n, "sorted() with other than one argument")
                 l, tl = self.expr(args[0], env, ind)
@@ -874,6 +880,21 @@ class Fn:
 
     def loop_header(self, target, it, env, ind, n):
         """`for k, v in d.items()` / `for k in d` / `for v in d.values()`: returns (lean pattern, env in the body)"""
+        if isinstance(it, ast.Call) and isinstance(it.func, ast.Name) and it.func.id == "range" and "range" not in env:
+            # `for i in range(b)` / `range(a, b)`: the ints a, a+1, …, b-1 (none when b ≤ a); the bounds are evaluated once, before the loop
+            if it.keywords or len(it.args) not in (1, 2) or not isinstance(target, ast.Name):
+                fail(n, "range() with a step / keywords, or a tuple target")
+            bounds = []
+            for a_ in it.args:
+                t_, ty_ = self.expr(a_, env, ind)
+                if ty_ != "int":
+                    fail(n, f"range() bound of type {ty_}")
+                bounds.append(t_)
+            lo_, hi_ = ("(0 : Int)", bounds[0]) if len(bounds) == 1 else bounds
+            env2 = dict(env)
+            env2[target.id] = "int"
+            self.iter_term = f"(Py.range {lo_} {hi_})"
+            return target.id, env2
         if isinstance(it, ast.Call) and isinstance(it.func, ast.Attribute) and not it.args and it.func.attr in ("items", "values", "keys"):
             d, td = self.expr(it.func.value, env, ind)
             kind = it.func.attr
@@ -936,6 +957,8 @@ class Fn:
                         if ta == "prop": a, ta = self.as_bool(a, ta, s), "bool"
                         if wt == "dec0" and ta in ("int", "dec", "dec0"):
                             a, ta = (self.as_dec(a, ta, s) if ta == "int" else a), "dec0"
+                        if wt == "flt" and ta == "int":
+                            a, ta = self.as_flt(a, ta, s), "flt"
                         if ta != wt:
                             fail(s, f"return statements of different types ({w}, component {ta})")
                         parts.append(a)
@@ -1281,6 +1304,8 @@ class Fn:
             return (self.as_dec(a, ta, node) if ta == "int" else a), "dec0"
         if w == "xdec" and ta == "dec":
             return f"(Py.XDec.fin {a})", "xdec"
+        if w == "flt" and ta == "int":
+            return self.as_flt(a, ta, node), "flt"
         fail(node, f"return statements of different types ({w}, {ta})")
 
     def check_ann(self, ann, ty, node):
@@ -1301,7 +1326,18 @@ class Fn:
             if not all(isinstance(e, ast.Name) for e in target.elts):
                 fail(s, "tuple target with non-names")
             names = [e.id for e in target.elts]
-            a, ta = self.expr(value, env, ind)
+            if isinstance(value, ast.Tuple) and len(value.elts) == len(names) and any(nm in self.promote for nm in names):
+                # float mode: `g, hi, lo = 0, 0, 0` where g also holds floats — that component is the float zero
+                parts, tys = [], []
+                for nm, e in zip(names, value.elts):
+                    a_, t_ = self.expr(e, env, ind)
+                    if t_ == "prop": a_, t_ = self.as_bool(a_, t_, s), "bool"
+                    if nm in self.promote and t_ == "int":
+                        a_, t_ = self.as_flt(a_, t_, s), "flt"
+                    parts.append(a_); tys.append(t_)
+                a, ta = "(" + ", ".join(parts) + ")", ("tuple", tys)
+            else:
+                a, ta = self.expr(value, env, ind)
             if not (isinstance(ta, tuple) and ta[0] == "tuple" and len(ta[1]) == len(names)):
                 fail(s, f"tuple assignment from a {ta}")
             if "_" in names:
@@ -1424,6 +1460,8 @@ class Fn:
                     self.want_ret = "dec0"     # int on one path, Decimal on another: the number (see README: type `num`)
                 elif kinds and kinds <= {"dec", "xdec"}:
                     self.want_ret = "xdec"
+                elif kinds and kinds == {"int", "flt"}:
+                    self.want_ret = "flt"
                 elif all(isinstance(t, tuple) and t[0] == "tuple" for t in probe.ret_types) and len({len(t[1]) for t in probe.ret_types}) == 1:
                     # tuples that differ only in components that are an int on one path and a Decimal on another (`return 0, 0` / `return a0, a1`)
                     uni = []
@@ -1432,6 +1470,8 @@ class Fn:
                             uni.append(comp[0])
                         elif all(isinstance(c, str) for c in comp) and set(comp) <= {"int", "dec", "dec0"}:
                             uni.append("dec0")
+                        elif all(isinstance(c, str) for c in comp) and set(comp) == {"int", "flt"}:
+                            uni.append("flt")       # float mode: the int literal 0 on one path, a float on another
                         else:
                             uni = None
                             break
@@ -2099,6 +2139,14 @@ GMX2_WITHDRAW = Unit("Gmx2ExecuteWithdrawUtils", _G2 + "ExecuteWithdrawUtils.py"
     narrow=True)
 GMX2_WITHDRAW.uses = [GMX2_UTILS, GMX2_MARKET_UTILS, GMX2_SWAP]
 UNITS.append(GMX2_WITHDRAW)
+
+
+# ---- result/metrics/calculator.py (float mode): the functions that compute with Python floats only (a list of floats, no numpy / pandas object)
+METRICS = Unit("MetricsCalculator", "demeter/result/metrics/calculator.py", [
+    ("return_value", {"init_equity": FL, "final_equity": FL}),
+    ("_withdraw_with_high_low", {"arr": ("list", FL)}, {"as": "withdraw_with_high_low"}),
+], prefix="metrics_", float_mode=True)
+UNITS.append(METRICS)
 
 
 BROKER_TYPING = Unit("BrokerTyping", "demeter/broker/_typing.py", [
